@@ -747,12 +747,34 @@ return MOL
     )
 
 
+def adds_unit(methods, cls, relpath):
+    def frag(eng, name):
+        o = Obj('SiteFrag', {'site_location': (named(STR, 'frag_contig'), named(INT, 'frag_site')), 'strand': named(BOOL, 'frag_strand'),
+                             'assignment_radius': named(INT, 'frag_radius'), 'genes': {'geneB'}})
+        o.vc_immutable = True
+        return o
+    return Contract(
+        PROP, relpath + '::' + cls, name='%s._add_fragment[the fragment reaches the base class once; -method %s]' % (cls, ','.join(methods)),
+        harness='''
+MOL._add_fragment(FRAGMENT)
+return MOL
+''',
+        params={'MOL': mt_molecule(cls, relpath), 'FRAGMENT': frag},
+        setup=mt_setup,
+        ensures={'fragment_is_added_once_through_the_base_class': 'GHOST["base_adds"] == [FRAGMENT]'},
+        raises={},
+        assumptions=['Molecule._add_fragment itself (fragment list, UMI counter, span): its own contracts (C07 span invariant, add_fragment)'],
+    )
+
+
 def method_table_units():
     units, seen_w, seen_s = [], set(), set()
     for methods, mol, frag in method_table():
         rel = class_file('molecule', mol)
         if rel is None:
             continue
+        if mol not in seen_w and mol != 'Molecule':
+            units.append(adds_unit(methods, mol, rel))
         if mol not in seen_w and mol != 'Molecule':
             seen_w.add(mol)
             units.append(writes_unit(methods, mol, rel))
